@@ -280,6 +280,9 @@ def unit(arg):
                 ex, paths = explore(lambda d: limit_fn(d, logic, argstr, seed, base), (), budget)
             elif kind == 'time':
                 base = unlimited(logic, argstr, seed)
+                if len(base[0]) > 60:
+                    out['skipped_long'] = out.get('skipped_long', 0) + 1
+                    continue
                 nclock, models = extra if isinstance(extra, (list, tuple)) else (extra, False)
                 pre = [z3.Int('t0') >= 0] + [z3.Int(f't{i}') <= z3.Int(f't{i + 1}') for i in range(nclock)]
                 ex, paths = explore(lambda d: time_fn(d, logic, argstr, seed, base, nclock, models), pre, budget)
@@ -337,7 +340,13 @@ def run(ctx):
     if not ctx.quick:
         time_logics = list(dict.fromkeys(time_logics + names[::3]))
     for name in time_logics:
-        units.append(('time', name, small[:4] if ctx.quick else small, ctx.seed, budget * 2, 2500))
+        # one unit per argument (each path is a complete run and there is one path per clock reading:
+        # quadratic in the proof length); proofs longer than 60 steps are outside the time exploration
+        if ctx.quick:
+            units.append(('time', name, small[:4], ctx.seed, budget * 2, 2500))
+        else:
+            for a_ in small:
+                units.append(('time', name, [a_], ctx.seed, budget, 2500))
         # the same with countermodels requested (invalid arguments with one / two open branches)
         units.append(('time', name, ['b:a', 'b:Aab'], ctx.seed, budget * 2, (2500, True)))
     life_logics = ['CPL', 'FDE', 'K', 'S5', 'D', 'GO', 'CFOL', 'KLP']
@@ -377,7 +386,7 @@ def run(ctx):
         samples=list(kinds.values())[:3], units=nunits,
         bounds=dict(step_limit='k over all integers, one class per prefix; 13 arguments per logic (quick), '
                                'proofs of natural length <= 40 (quick) / 80 steps; thorough: 33 arguments per logic',
-                    time_limit='T over all integers; clock = arbitrary non-decreasing instants; '
+                    time_limit='T over all integers; clock = arbitrary non-decreasing instants; proofs <= 60 steps; '
                                f'{len(time_logics)} logics x small arguments, without and with countermodels '
                                '(with: some schedule must raise the timeout inside finish())',
                     lifecycle=f'up to {3 if ctx.quick else 4} calls from {list(CALLS)} on '
